@@ -14,8 +14,9 @@ import json,sys
 d,line=sys.argv[1],sys.argv[2]
 m=json.load(open(d+'/meta.json'))
 caught=' CAUGHT ' in line
-if m.get('neutralised_by') and not caught:
-    line=line.replace('MISSED','SILENT-AS-EXPECTED (change neutralised by fix %s, see meta.json)'%m['neutralised_by']['commit'])
+if m.get('neutralised_by'):
+    if not caught:
+        line=line.replace('MISSED','SILENT-AS-EXPECTED (change neutralised by fix %s, see meta.json)'%m['neutralised_by']['commit'])
     open('seeded/RESULTS.txt','a').write(line+'\n')
 sig=line.split(' CAUGHT ',1)[1].strip() if caught else ''
 m['caught_by']=dict(check=f"./run.sh {m['property']} quick", caught=caught, signatures=sig[:600], note='' if caught else line[:300])
